@@ -202,10 +202,20 @@ def adv_text(max_size=5):
     return st.sampled_from(VALUE_POOL)
 
 
+_SHORT = ["", "", "0", "1", "a", ":", "#", "\n", " ", ";", "\\", "/", "x"]
+
+
 def value(allow_none=True):
-    """a property value: mostly from the adversarial pool, sometimes arbitrary Unicode, sometimes None"""
-    pool = VALUE_POOL + ([None] * 250 if allow_none else [])
-    return st.one_of(st.sampled_from(pool), st.sampled_from(pool), st.sampled_from(pool), st.text(alphabet=st.characters(blacklist_categories=("Cs",)), max_size=4))
+    """a property value: None / empty / one character (interned by CPython), the adversarial pool, arbitrary Unicode.
+    Hypothesis favours small indices of long sampled_from lists, so the interesting short values get a list of
+    their own."""
+    short = ([None, None] if allow_none else []) + _SHORT
+    return st.one_of(
+        st.sampled_from(short),
+        st.sampled_from(VALUE_POOL),
+        st.sampled_from(VALUE_POOL),
+        st.text(alphabet=st.characters(blacklist_categories=("Cs",)), max_size=4),
+    )
 
 
 def odd_key():
